@@ -7,7 +7,7 @@
 From Coq Require Import List String Ascii ZArith Bool Arith.
 From PDV Require Import Lib.StrUtil Marshal.Ident Marshal.IdentProofs Marshal.TypeStr Marshal.TypeStrProofs
                         Jinja.Tir Jinja.Interp Gen.Templates Jinja.FragFlags Jinja.FragEnums Jinja.FragRecord Jinja.FragDecl Jinja.FragIface Jinja.Inline Jinja.FragIfaceJava Jinja.FragErr
-                        Lang.Comment Jinja.FragFlagsObjc Jinja.FragFlagsCli Jinja.LoopPure Jinja.FragEnums2 Jinja.FragDeclObjc Jinja.FragIfaceObjc.
+                        Lang.Comment Jinja.FragFlagsObjc Jinja.FragFlagsCli Jinja.LoopPure Jinja.FragEnums2 Jinja.FragDeclObjc Jinja.FragIfaceObjc Jinja.FragErr2.
 Import ListNotations.
 Open Scope string_scope. Open Scope list_scope.
 
@@ -180,6 +180,13 @@ Theorem C02_enum_items : forall tn il,
   exec cli_cfg cli_enum_loop (e2state "cppcli" tn il) = (e2state "cppcli" tn il, plines cli_enum_line il 0).
 Proof. intros tn il. repeat split; [apply java_enum_render | apply objc_enum_render | apply cli_enum_render]. Qed.
 Print Assumptions C02_enum_items.
+
+(* error domains in Objective-C (NS_ERROR_ENUM) and C++/CLI (nested exception classes): exactly the codes, in declaration order *)
+Theorem C02_error_codes_objc_cppcli : forall tn cl,
+  exec objc_cfg objc_codes_loop (ec2state tn cl) = (ec2state tn cl, plines (objc_code_line tn) cl 0) /\
+  exec cli_cfg cli_codes_loop (ec2state tn cl) = (ec2state tn cl, plines cli_code_line cl 0).
+Proof. intros tn cl. split; [apply objc_codes_render | apply cli_codes_render]. Qed.
+Print Assumptions C02_error_codes_objc_cppcli.
 
 Theorem C02_members_in_declaration_order_2 : forall (A : Type) (h : A -> nat -> bool -> string) l idx k a, nth_error l k = Some a ->
   exists pre post, plines h l idx = (pre ++ h a (idx + k) (match skipn (S k) l with [] => true | _ => false end) ++ post)%string.
